@@ -344,6 +344,110 @@ func runC17(c *core.Ctx) {
 	}
 	// all four combinations covered
 	c.Instance("R3")
+	// ---- R7 the wrappers treat the caller's batch as read-only and write it whole
+	c.Rule("R7", "transport code neither re-slices the batch it is asked to write nor writes/appends into the caller's buffers", 1)
+	nBatch := 0
+	for _, fn := range p.Funcs {
+		rel := p.PkgRel(fn)
+		if rel != "transport" && !strings.HasPrefix(rel, "transport/") {
+			continue
+		}
+		// parameters that are byte slices or batches of byte slices
+		var batches, bufs []*ssa.Parameter
+		for _, prm := range fn.Params {
+			if sl, ok := prm.Type().Underlying().(*types.Slice); ok {
+				if inner, ok := sl.Elem().Underlying().(*types.Slice); ok {
+					if b, ok := inner.Elem().Underlying().(*types.Basic); ok && b.Kind() == types.Byte {
+						batches = append(batches, prm)
+					}
+				} else if b, ok := sl.Elem().Underlying().(*types.Basic); ok && b.Kind() == types.Byte {
+					bufs = append(bufs, prm)
+				}
+			}
+		}
+		if len(batches) == 0 && len(bufs) == 0 {
+			continue
+		}
+		isRead := fn.Name() == "Read" // Read(p) fills p by contract
+		nBatch++
+		c.Instance("R7")
+		bad, badAt := "", ssa.Instruction(nil)
+		// the cell a parameter was spilled into (its address is taken for a pointer-receiver method)
+		spillOf := func(o ssa.Value, prm *ssa.Parameter) bool {
+			ld, ok := o.(*ssa.UnOp)
+			if !ok || ld.Op != token.MUL {
+				return false
+			}
+			al, ok := ld.X.(*ssa.Alloc)
+			if !ok {
+				return false
+			}
+			for _, ref := range *al.Referrers() {
+				if st, ok := ref.(*ssa.Store); ok && st.Addr == ssa.Value(al) && core.Unwrap(st.Val) == ssa.Value(prm) {
+					return true
+				}
+			}
+			return false
+		}
+		fromBatch := func(v ssa.Value) bool {
+			for _, o := range sliceOrigins(v) {
+				for _, b := range batches {
+					if core.Unwrap(core.ForwardLoad(o)) == ssa.Value(b) || spillOf(o, b) {
+						return true
+					}
+				}
+			}
+			return false
+		}
+		// element of a batch: load of &batch[i], or the range value
+		elemOfBatch := func(v ssa.Value) bool {
+			for _, o := range sliceOrigins(v) {
+				if ld, ok := o.(*ssa.UnOp); ok && ld.Op == token.MUL {
+					if ia, ok := ld.X.(*ssa.IndexAddr); ok && fromBatch(ia.X) {
+						return true
+					}
+				}
+			}
+			return false
+		}
+		fromBuf := func(v ssa.Value) bool {
+			if isRead {
+				return false
+			}
+			for _, o := range sliceOrigins(v) {
+				for _, b := range bufs {
+					if core.Unwrap(core.ForwardLoad(o)) == ssa.Value(b) || spillOf(o, b) {
+						return true
+					}
+				}
+			}
+			return false
+		}
+		core.AllInstrs(fn, func(in ssa.Instruction) {
+			switch x := in.(type) {
+			case *ssa.Slice:
+				if fromBatch(x.X) && (x.Low != nil || x.High != nil) {
+					bad, badAt = "the batch is re-sliced: only part of it is written although no error is reported", in
+				}
+			case *ssa.Store:
+				if ia, ok := x.Addr.(*ssa.IndexAddr); ok && (elemOfBatch(ia.X) || fromBuf(ia.X) || fromBatch(ia.X)) {
+					bad, badAt = "a store into the caller's buffer / batch", in
+				}
+			}
+			if args, ok := core.IsBuiltinCall(in, "append"); ok && len(args) > 0 && (elemOfBatch(args[0]) || fromBuf(args[0])) {
+				bad, badAt = "append to a caller-owned slice (writes into its spare capacity)", in
+			}
+			if args, ok := core.IsBuiltinCall(in, "copy"); ok && len(args) > 0 && (elemOfBatch(args[0]) || fromBuf(args[0])) {
+				bad, badAt = "copy into a caller-owned slice", in
+			}
+		})
+		c.Check(bad == "", "R7", "batch-read-only/"+p.QName(fn), p.Pos(fn.Pos()), "the caller's buffers are only read, the batch is passed on whole", "transport code modifies or truncates what it was asked to write ("+bad+" at "+p.InstrPos(badAt)+"): the bytes on the wire differ from the payload, or part of an accepted batch is dropped silently")
+	}
+	if nBatch == 0 {
+		c.Instance("R7")
+		c.Unk("R7", "batch-read-only", "", "no transport function takes a byte slice or a batch (wrappers not recognised)")
+	}
+
 	// ---- R6 a variant's own Close always closes the connection it wraps
 	c.Rule("R6", "a wrapper variant that declares Close closes the wrapped connection on every path (whatever its final flush returned)", 1)
 	nClose := 0
